@@ -251,6 +251,14 @@ import gc as _gc  # noqa: E402
 # objects that no call may alter (S7)
 AUTO_DEFAULTS = [o for o in _gc.get_objects() if type(o).__name__ == "Auto" and type(o).__module__.startswith("cola.")]
 
+USER_FN_HOOK = None  # set per run: user functions handed to cola (unary f, Kernel fn) yield to the scheduler
+
+
+def user_fn_yield():
+    if USER_FN_HOOK is not None:
+        USER_FN_HOOK()
+
+
 CRUMB_FD = None  # set by the zygote child: breadcrumbs written before a fault is armed
 
 
